@@ -81,3 +81,101 @@ Print Assumptions c25_pinned_refuted.
 Theorem c25_pinned_refuted_system : ~ c25_system_statement pinned sched_good.
 Proof. exact pinned_refuted_system. Qed.
 Print Assumptions c25_pinned_refuted_system.
+
+(* ---- The lock schedule of the model is the code's (translator tools/gofrag) --------------------
+
+   VerifGen.FragConsensus.VotePendingBlockNums is GENERATED from consensus.VotePendingBlockNums
+   (consensus/general.go) on every run: a function of the table
+   ActiveNetParams.VotePendingBlockNums (records BeginBlock / EndBlock / Num) and of the height.
+   C25/Tie.v: [covers h r] = Begin r <= h < End r; [entry_of] converts a triple of the model's
+   table; C24.Run.sched_fun is the schedule every correspondence case of C24/C25 is run with. *)
+From Coq Require Import ZArith.
+From Verif Require Import GoFrag.
+From VerifGen Require Import FragConsensus.
+From C24 Require Import Run.
+From C25 Require Import Tie.
+
+(* SPEC, all inputs: the Num of the first entry covering the height, else the default; no panic *)
+Theorem c25_code_VotePendingBlockNums : forall tbl h,
+  VotePendingBlockNums tbl h =
+  Some (match first_match (covers h) VotePendingBlockNum_Num tbl with
+        | Some n => n
+        | None => consensus_defaultVotePendingNum
+        end).
+Proof. exact VotePendingBlockNums_spec. Qed.
+Print Assumptions c25_code_VotePendingBlockNums.
+
+(* TIE: the generated function is the hand-written schedule of the models *)
+Theorem c25_tie_sched_fun : forall (t : list (N * N * N)) (h : N),
+  VotePendingBlockNums (map entry_of t) (Z.of_N h) = Some (Z.of_N (sched_fun t h)).
+Proof. exact tie_sched_fun. Qed.
+Print Assumptions c25_tie_sched_fun.
+
+(* ---- The keeper's lookups when the caller accepts unconfirmed utxos (C25/Keeper.v) ---------------
+
+   Model: account/utxo_keeper.go findUtxos (the closure appendUtxo with its [seen] set, over the
+   db records and then - with useUnconfirmed - over the keeper's unconfirmed map), findUtxo (the
+   unconfirmed map first) and ReserveParticular.  The copies in the unconfirmed map were computed by
+   wallet.AddUnconfirmedTx for block height 0 (ValidHeight = VotePendingBlockNums(0) for a vote
+   output) and stay until the pool's removal message is handled; which copies exist is arbitrary
+   here.  [copies_agree]: a copy and a record under the same output id describe the same output
+   (account, asset, vote key: an output id is a hash).  Tied to the code by the keeper case files
+   of the harness (every observed state with copies in the map, both values of useUnconfirmed). *)
+From C25 Require Import Keeper KeeperProofs.
+
+(* findUtxos, with or without useUnconfirmed: whatever is handed out under the id of a confirmed
+   record IS that record, and it has passed the maturity filter - copies never stand in for it. *)
+Theorem c25_find_utxos_confirmed_first :
+  forall q h dbl unconf useU u r,
+    copies_agree q dbl unconf -> NoDup (map u_id dbl) ->
+    In u (fst (find_utxos q h dbl unconf useU)) -> In r dbl -> u_id r = u_id u ->
+    u = r /\ (u_valid r <= h)%N.
+Proof. exact find_utxos_confirmed_first. Qed.
+Print Assumptions c25_find_utxos_confirmed_first.
+
+(* Hence the property holds for findUtxos with useUnconfirmed on every confirmed output, in every
+   reachable wallet state ([dbl]: records of the wallet's db under the standard key). *)
+Theorem c25_find_utxos_unconfirmed_spendable :
+  forall P st q h dbl unconf useU u r,
+    sched_create P -> sched_mono P -> reach repaired P st ->
+    (forall a, In a dbl -> dget (wdb st) (true, u_id a) = Some a) ->
+    NoDup (map u_id dbl) -> copies_agree q dbl unconf ->
+    In u (fst (find_utxos q h dbl unconf useU)) -> In r dbl -> u_id r = u_id u ->
+    exists m e, cscan P (wchain st) = Some m /\ cget m (u_id u) = Some e /\
+      u_amount u = o_amount (ce_rec e) /\ u_prog u = o_prog (ce_rec e) /\ u_vote u = ce_vote e /\
+      unlocked P e (h + 1) = true.
+Proof. exact find_utxos_unconfirmed_spendable. Qed.
+Print Assumptions c25_find_utxos_unconfirmed_spendable.
+
+(* ReserveParticular / findUtxo (repaired in /repo, commit 781a2de1: the db first, then - with
+   useUnconfirmed - the unconfirmed map).  [db_record std ctr id r]: r is what the db holds under
+   the id (standard key, else contract key).  Whenever the db holds a record under the id, findUtxo
+   returns that record and ReserveParticular hands it out exactly when it has passed the maturity
+   filter - for EVERY content of the unconfirmed map and both values of useUnconfirmed.  (Before
+   the repair the copy was looked up first and a vote output mined at 17 under lock 3 - record
+   ValidHeight 20, copy ValidHeight 3 - was reserved at height 17: KeeperProofs.reserve_old_witness,
+   harness corpus case corpus-pool-vote-lag, oracle class immature-reserved-unconfirmed-copy.) *)
+Theorem c25_reserve_particular_confirmed_first :
+  forall std ctr unconf id useU h r,
+    db_record std ctr id r ->
+    find_utxo std ctr unconf id useU = Some r /\
+    reserve_particular std ctr unconf id useU h = (if (h <? u_valid r)%N then None else Some r).
+Proof. exact reserve_confirmed_first. Qed.
+Print Assumptions c25_reserve_particular_confirmed_first.
+
+(* Consequently the property holds for ReserveParticular under either flag on every confirmed
+   output, in every reachable wallet state: what is reserved is the record, and consensus accepts a
+   spend of it at the next height - a confirmed, still locked output is never handed out. *)
+Theorem c25_reserve_particular_spendable :
+  forall P st std ctr unconf id useU h u r,
+    sched_create P -> sched_mono P -> reach repaired P st ->
+    (forall a, In a std -> dget (wdb st) (true, u_id a) = Some a) ->
+    (forall a, In a ctr -> dget (wdb st) (false, u_id a) = Some a) ->
+    db_record std ctr id r ->
+    reserve_particular std ctr unconf id useU h = Some u ->
+    u = r /\
+    exists m e, cscan P (wchain st) = Some m /\ cget m id = Some e /\
+      u_amount u = o_amount (ce_rec e) /\ u_prog u = o_prog (ce_rec e) /\ u_vote u = ce_vote e /\
+      unlocked P e (h + 1) = true.
+Proof. exact reserve_particular_spendable. Qed.
+Print Assumptions c25_reserve_particular_spendable.
